@@ -128,6 +128,12 @@ def atoms(guards):
                 add(v, False)
         elif isinstance(e, ast.Compare) and len(e.ops) == 1:
             out.append((e, pol))
+        elif isinstance(e, ast.Compare) and len(e.ops) > 1 and pol:
+            # chained comparison a <= b <= c holds: every link holds
+            left = e.left
+            for op, right in zip(e.ops, e.comparators):
+                out.append((ast.Compare(left=left, ops=[op], comparators=[right]), True))
+                left = right
         else:
             out.append((e, pol))
     for e, pol in guards:
